@@ -255,15 +255,17 @@ def run(ctx):
         N, n = c["N"], c["n"]
         lines.append(["hamprop", N, n] + fbs(c["H1"]) + fbs(c["H0"]) + fbs(c["d1"]) + fbs(c["d0"]) + fbs(c["v1"]) + fbs(c["v0"]))
         meta.append(("hamprop", c, W, integ))
-        if not cap.calls:
-            # the step did not go through numpy.linalg.eigh (some shortcut): the model cannot be fed LAPACK's result;
+        if not cap.calls and integ != "exp":
+            # the rk4 step did not go through numpy.linalg.eigh (some shortcut): the model cannot be fed LAPACK's result;
             # the state it produced is judged by the oracle alone
             ctx.corr_mismatch(integ + "step", {"N": N, "dt": c["dt"]}, "propagate_electronics(%s) did not call numpy.linalg.eigh" % integ)
             ok_, obs_, req_, text_ = oracle_step({"case": c, "integ": integ})
             if not ok_:
                 ctx.oracle_fail("invalid-state-after-step:" + integ, "step", {"case": c, "integ": integ}, obs_, req_, text_)
             continue
-        a, w, cf = cap.calls[0]
+        # exp: the propagator exp(-i W dt) is independent of the eigenbasis, so a step that obtained it without
+        # numpy.linalg.eigh is compared through the harness's own decomposition of the (already compared) generator W
+        a, w, cf = ec.first_eigh(cap, "propagate_electronics", W=W)
         if integ == "exp":
             lines.append(["expstep", N] + fbs(w) + cbs(cf) + [fb(c["dt"])] + cbs(c["rho"]))
         else:
